@@ -147,6 +147,23 @@ def cov_c14(st, tier):
     return base
 
 
+def cov_c15(st, tier):
+    ea, eb = st["parts"]["ea"], st["parts"]["eb"]
+    base = cov_ea("C15", "", ["data_fragments"])(ea, tier)
+    base.update({
+        "states": ea["execs"] + ea["states"] + eb["states"], "transitions": ea["steps"] + eb["transitions"],
+        "traces_validated_against_impl": ea["execs"] + eb["transitions"], "evaluations": ea["execs"] + eb["letters_applied"],
+        "distinct_nontrivial": ea["distinct_outcomes"] + eb["distinct_outcomes"],
+        "rule": "E-A part: state = end state of one complete execution of real client+server under one fate assignment, transition = one scheduler step. "
+                "E-B part: state = distinct exact state (server image, users[], world, client model, fragment monitor) reached by a letter sequence, transition = one letter applied to the real server loop. "
+                "Every execution/transition is an implementation run. distinct = distinct delivery outcome classes (E-A) + distinct (letter, pending count, outputs) classes (E-B)",
+        "ea_part": {"executions": ea["execs"], "cells": ea["cells"], "data_fragments_checked": ea["data_fragments"], "wall_s": ea.get("wall_s")},
+        "eb_part": {"states": eb["states"], "transitions": eb["transitions"], "depth_completed": eb["maxdepth"], "alphabet_size": eb["letters"], "start_states": eb["start_states"],
+                    "data_answers_checked": eb["data_answers"], "wall_s": eb.get("wall_s")},
+    })
+    return base
+
+
 EB_ASSUME = COMMON_ASSUME + [
     "the peer of the real server loop is the harness: every letter is one datagram / tun packet / time step; the server runs until it blocks in select() again",
     "state key = hash of the server image's data+bss, the canonical content of users[] (engine/srvstate.h), the virtual world and the harness model; "
@@ -311,8 +328,18 @@ PROPS = {
         "technique": "stateless model checking (fate enumeration, deviation-bounded) of real client+server, plus explicit-state depth-bounded search over a client-message alphabet against the real server loop",
         "assumptions": EA_ASSUME + EB_ASSUME[2:],
     },
-    "C15": ea_entry("C15",
-        "Every server answer that carries tunnel data, in every execution, is decoded by reference decoders for the five presentations (independent of the client) and checked against the fragment size the session negotiated on the wire ('n' request acknowledged by the server; 100 before): payload length, consecutive fragment numbers per downstream packet, identical resends, last flag only on the fragment that completes a compressed packet, sizes below 2 rejected.",
-        "F is taken from the wire, not from the server's variable. Forced fragment sizes in the grid: auto, 50, 200, 1200; other values of F (2,3,5,4093..4096,65535) are covered by the dedicated boundary cells of the thorough tier.",
-        "distinct = distinct outcome classes", ["data_fragments"]),
+    "C15": {
+        "engine": "E-A netsim + E-B adversary",
+        "parts": [
+            {"name": "ea", "harness": "ea.c", "flavor": "ubsan", "images": (("s", "server"), ("ca", "client")), "args": ["--prop", "C15"]},
+            {"name": "eb", "harness": "lazy.c", "flavor": "ubsan", "images": (("s", "server"),), "args": ["--prop", "C15"],
+             "tier_args": {"quick": ["--depth", "5"], "thorough": ["--depth", "6"]}},
+        ],
+        "tiers": {"quick": {"budget_s": 360}, "thorough": {"budget_s": 2400}},
+        "coverage": cov_c15,
+        "level_text": "Every server answer that carries tunnel data is decoded by reference decoders for the five presentations (independent of the client) and checked against the fragment size the session negotiated on the wire ('n' request acknowledged by the server; 100 before): payload length, consecutive fragment numbers per downstream packet, last flag only on the fragment that completes a compressed packet, sizes below 2 rejected. (1) E-A: real client and server over the configuration grid under every single fate deviation. (2) E-B: the harness as client of one established session per record type, every sequence up to the depth bound of {acking ping, ping with a stale ack, upstream packet, tun packet of 1 or 3+ fragments, N(200/100/50/3/2/1/0) at any point of a transfer, re-delivery of the newest query with a fresh id, +1 s}.",
+        "level_note": "F is taken from the wire, not from the server's variable. A resend after a size change is cut at the new size by the server; the property bounds its size but does not promise identical resends, so the monitor follows the server's latest cut. Sizes above what one CNAME/A answer can carry (about 140 bytes) are a user misconfiguration and are not requested for those types. All F in 2..65535 are represented by {2,3,50,100,200} plus the forced sizes of the E-A grid.",
+        "technique": "stateless model checking (fate enumeration, deviation-bounded) of real client+server, plus explicit-state depth-bounded search over a client-message alphabet against the real server loop",
+        "assumptions": EA_ASSUME + EB_ASSUME[2:],
+    },
 }
